@@ -71,35 +71,39 @@ EXTENDS SigVerify, Sequences
 CONSTANT Depth   \* calls per session
 
 VARIABLES
-  base,     \* the session's object: [kind, key, hash, shape] (signed once, by key <<key, 1>>, under hash)
+  base,     \* the session's object: [kind, key, hash, shape, dform] (signed once, by key <<key, 1>>, under hash; an
+            \* object handed over as bytes is signed in form dform - SigVerify, clause ExactBytes)
   last,     \* arguments and verdict of the previous call = what the caller's re-used objects hold (ArgsKept)
   hist,     \* the calls made, with the verdict of each
   exposed,  \* ghost: the non-functions (coarse memos, Residue) this history tells from the function
   residue   \* ghost: the step before was refused while the signed bytes were being built
 hvars == <<base, last, hist, exposed, residue>>
 
-NoBase == [kind |-> "none", key |-> "", hash |-> 0, shape |-> StdShape]
+NoBase == [kind |-> "none", key |-> "", hash |-> 0, shape |-> StdShape, dform |-> "plain"]
 NoLast == [args |-> <<>>, res |-> <<>>]
 
 (* ---------- calls ---------- *)
 \* a call presents the session's object after mutation `mut`, with the opt-in flag at `allow`; `rot` tells the
 \* harness with which entry point to begin (the order of entry points is part of the history)
-CaseOf(b, cl) == [kind |-> b.kind, key |-> b.key, hash |-> b.hash, mut |-> cl.mut, allow |-> cl.allow, shape |-> b.shape]
-CallsOf(b) == {[mut |-> mu, allow |-> a] : mu \in Muts(b.kind, b.key, b.hash), a \in Allows(b.kind)}
+CaseOf(b, cl) == [kind |-> b.kind, key |-> b.key, hash |-> b.hash, mut |-> cl.mut, allow |-> cl.allow, shape |-> b.shape, dform |-> b.dform]
+CallsOf(b) == {[mut |-> mu, allow |-> a] : mu \in Muts(b.kind, b.key, b.hash, b.dform), a \in Allows(b.kind)}
 
 \* THE LAW.  What a call returns alone: the verdict of the verification proper and the verdict through a verifier
 \* constructed for the presented key under the flag.  Nothing but b and cl occurs on the right-hand side.
 Alone(b, cl) == <<Expected(CaseOf(b, cl)), EndToEnd(CaseOf(b, cl))>>
 
-\* the arguments component by component (what a cache key could be computed from)
+\* the arguments component by component (what a cache key could be computed from); "dataform": the form in which
+\* the bytes of an object handed over as bytes are written (ExactBytes) - the same document, other bytes
 Components(k) == {"keytype", "keyid", "hash", "sig", "form"} \cup SignedFields(k)
                  \cup (IF ViaVerifier(k) THEN {"allow"} ELSE {})
+                 \cup (IF RawBytes(k) THEN {"dataform"} ELSE {})
 Args(b, cl) ==
   LET p == Presented(CaseOf(b, cl)) IN
   [x \in Components(b.kind) |->
      CASE x = "keytype" -> p.key.type [] x = "keyid" -> p.key.id
        [] x = "hash" -> p.hash        [] x = "sig" -> p.sig
        [] x = "form" -> p.val.form    [] x = "allow" -> cl.allow
+       [] x = "dataform" -> p.dform
        [] OTHER -> p.msg[x]]
 Drop(x, a) == [a EXCEPT ![x] = "-"]
 
@@ -161,8 +165,8 @@ Interlude(u, rot) ==
   /\ residue' = TRUE
   /\ UNCHANGED <<base, last, exposed>>
 
-HNext == \/ \E k \in Kinds, kt \in KeyTypes : \E h \in ObjHashes(k), sh \in Shapes(k) :
-              Open([kind |-> k, key |-> kt, hash |-> h, shape |-> sh])
+HNext == \/ \E k \in Kinds, kt \in KeyTypes : \E h \in ObjHashes(k), sh \in Shapes(k), d \in DataForms(k) :
+              Open([kind |-> k, key |-> kt, hash |-> h, shape |-> sh, dform |-> d])
          \/ (base # NoBase /\ Len(hist) < Depth /\ \E cl \in CallsOf(base) : Call(cl, 0))
          \/ (base # NoBase /\ Len(hist) < Depth /\ \E u \in Unencodables : Interlude(u, 0))
 
